@@ -19,6 +19,9 @@ pub enum X {
     AppRespond { node: usize, to: NodeAddress, resp: Response },
     Submit { node: usize, peer: usize, with_enr: bool, body: RequestBody },
     SessionLoss { at: usize, claimed_peer: usize },
+    /// a message in `claimed_peer`'s name from its address, sealed by somebody who holds none of the session
+    /// keys (all-zero key, all-ones key)
+    ForgedMessage { at: usize, claimed_peer: usize, key_byte: u8 },
 }
 
 pub const BASES: u64 = 6;
@@ -120,6 +123,11 @@ async fn run_async(ctx: &mut Ctx, enumerate: bool) {
                 _ => RequestBody::Talk { protocol: b"x".to_vec(), request: vec![7; 1 + ctx.tape.choose(30) as usize] },
             };
             w.schedule(ctx.tape.choose(3000) as u64, Ev::Custom(X::Submit { node, peer, with_enr: ctx.tape.choose(2) == 0, body }));
+        }
+        for _ in 0..ctx.tape.choose(3) {
+            let at = ctx.tape.choose(3) as usize;
+            let claimed_peer = (at + 1 + ctx.tape.choose(2) as usize) % 3;
+            w.schedule(5 + ctx.tape.choose(3500) as u64, Ev::Custom(X::ForgedMessage { at, claimed_peer, key_byte: *ctx.tape.pick(&[0u8, 0, 0xff]) }));
         }
     }
     let mut next_rid = 1u64;
@@ -346,6 +354,21 @@ async fn run_async(ctx: &mut Ctx, enumerate: bool) {
                 }
                 X::AppRespond { node, to, resp } => {
                     w.send_in(node, HandlerIn::Response(to, Box::new(resp)));
+                }
+                X::ForgedMessage { at, claimed_peer, key_byte } => {
+                    let kind = PacketKind::Message { src_id: w.nodes[claimed_peer].id };
+                    let nonce = [0x6bu8; 12];
+                    let iv = 0x0f0e_0d0c_0b0a_0908_0706_0504_0302_0100u128;
+                    let aad = toolkit::authenticated_data(iv, nonce, kind.clone());
+                    let msg = Request { id: rid(0xF0F0), body: RequestBody::Talk { protocol: b"forged".to_vec(), request: b"not from the peer".to_vec() } }.encode();
+                    if let Some(ct) = toolkit::encrypt(&[key_byte; 16], nonce, &msg, &aad) {
+                        let bytes = toolkit::encode_packet(iv, nonce, kind, ct, &w.nodes[at].id);
+                        ctx.fault("forged_message_under_trivial_key");
+                        mutated += 1;
+                        ctx.ev(format!("t={} FORGED message at n{at} in the name of n{claimed_peer}, sealed with key {key_byte:#04x}..", now_ms()));
+                        let src = w.nodes[claimed_peer].addr;
+                        w.deliver(at, src, bytes, Origin::Injected { tag: "forged-message" });
+                    }
                 }
                 X::SessionLoss { at, claimed_peer } => {
                     let bytes = toolkit::encode_packet(7, [9u8; 12], PacketKind::Message { src_id: w.nodes[claimed_peer].id }, vec![0x5a; 44], &w.nodes[at].id);
